@@ -84,6 +84,23 @@ fn strategy_very_long() -> BoxedStrategy<Case> {
   strategy_with(3, 190, 280, 1)
 }
 
+/// replacements recorded in ascending (start, end) order - what a tool walking the text from left to right
+/// produces - 66-140 of them over few cut points, with every enforce value; a few observers at the end
+fn strategy_monotone() -> BoxedStrategy<Case> {
+  let cfg = inner_cfg();
+  (tree(cfg), vec(any::<u16>(), 1..=4), vec(abs_repl(cfg), 66..=140), vec(0u8..OBSERVERS.len() as u8, 1..=3))
+    .prop_map(move |(inner, pool, abs, obs)| {
+      let t = model_text(&inner);
+      let mut repls: Vec<Repl> = abs.iter().map(|a| concretize_repls(&t, &pool, std::slice::from_ref(a), false).pop().unwrap()).collect();
+      // stable: ties keep their generated order (enforce values in any order)
+      repls.sort_by_key(|r| (r.start, r.end));
+      let mut ops: Vec<Op> = repls.into_iter().map(Op::Mut).collect();
+      ops.extend(obs.into_iter().map(Op::Obs));
+      Case { inner, ops }
+    })
+    .boxed()
+}
+
 fn strategy_with(pool_max: usize, ops_min: usize, ops_max: usize, obs_weight: u32) -> BoxedStrategy<Case> {
   let cfg = inner_cfg();
   (
@@ -224,7 +241,7 @@ impl Prop for C05 {
   type Case = Case;
   const ID: &'static str = "C05";
   fn rule(&self) -> String {
-    "inner source: tree of depth<=1 over Raw*/Original leaves with 1-4 byte UTF-8 text; history of <=12 ops (second leg: 22-48 ops over <=2 cut points; third leg: 190-280 ops over <=3 cut points): \
+    "inner source: tree of depth<=1 over Raw*/Original leaves with 1-4 byte UTF-8 text; history of <=12 ops (second leg: 22-48 ops over <=2 cut points; third leg: 190-280 ops over <=3 cut points; fourth leg: 66-140 replacements recorded in ascending (start, end) order): \
      replace/insert/replace_with_enforce/insert_with_enforce with positions from a pool of <=5 char-boundary cut \
      points or beyond the end (up to u32::MAX), interleaved with 13 kinds of observer and with fork (clone the current object, keep both alive, up to 4) / switch \
      (continue on another live object); after every observer the \
@@ -236,6 +253,7 @@ impl Prop for C05 {
     vec![
       Leg { name: "histories", source: Cases::Generated(Box::new(strategy), 500_000, 6_000_000) },
       Leg { name: "long histories (>20 replacements, colliding keys)", source: Cases::Generated(Box::new(strategy_long), 100_000, 1_500_000) },
+      Leg { name: "66-140 replacements recorded in ascending (start, end) order, all enforce values", source: Cases::Generated(Box::new(strategy_monotone), 20_000, 300_000) },
       Leg { name: "very long histories (>128 replacements, colliding keys)", source: Cases::Generated(Box::new(strategy_very_long), 6_000, 80_000) },
     ]
   }
